@@ -96,6 +96,10 @@ structure Namespace where
   routes : List Id := []
   dataTypes : List Id := []
   aliases : List Id := []
+  /-- names of `namespace.annotations` and `namespace.annotation_types` in list order (they take no
+  part in the dependency graph) -/
+  annotations : List String := []
+  annotationTypes : List String := []
 deriving Repr, Inhabited
 
 structure Graph where
@@ -848,11 +852,41 @@ def linAll (g : Graph) (self : String) (link : Node → Option Id) : List Id →
 /-- `if is_composite_type(data_type) and data_type.parent_type` -/
 def parentLink (nd : Node) : Option Id := nd.parent
 
-/-- `if is_alias(alias.data_type)`: only a target that *is* an alias -/
-def aliasLink (g : Graph) (nd : Node) : Option Id :=
-  match nd.target with
-  | .ref a => if g.isAliasId a then some a else none
-  | _ => none
+/-- `referenced_aliases(data_type)`: the aliases a type expression mentions, also inside `List`, `Map`
+and `Nullable` wrappers (an alias is not looked into; a struct or union mentions none) -/
+def referencedAliases (g : Graph) (e : TyExpr) : List Id := e.refs.filter g.isAliasId
+
+/-- `seen_aliases` and `linearized_aliases` of `linearize_aliases` -/
+structure LinSt where
+  seen : List Id := []
+  out : List Id := []
+deriving Repr, Inhabited
+
+/-- `for x in xs: f(x)` -/
+def foldAdd (f : Id → LinSt → Except Err LinSt) : List Id → LinSt → Except Err LinSt
+  | [], st => .ok st
+  | a :: rest, st =>
+    match f a st with
+    | .error e => .error e
+    | .ok st' => foldAdd f rest st'
+
+/-- The inner function `add_alias`: an alias is marked on entry, the aliases its target mentions are
+added first, then it is appended. `fuel` bounds the nesting depth (Python: the call stack). -/
+def aliasAdd (g : Graph) (self : String) : Nat → Id → LinSt → Except Err LinSt
+  | fuel, id, st =>
+    if st.seen.contains id then .ok st
+    else
+      match g.node? id with
+      | none => .error (.dangling id)
+      | some nd =>
+        if nd.ns != self then .ok st
+        else
+          match fuel with
+          | 0 => .error .recursion
+          | fuel' + 1 =>
+            match foldAdd (aliasAdd g self fuel') (referencedAliases g nd.target) { st with seen := id :: st.seen } with
+            | .error e => .error e
+            | .ok st' => .ok { st' with out := st'.out ++ [id] }
 
 /-- `ApiNamespace.linearize_data_types()` of the namespace `self` whose `data_types` is `ids` -/
 def linearizeDataTypes (g : Graph) (self : String) (ids : List Id) : Except Err (List Id) :=
@@ -860,7 +894,9 @@ def linearizeDataTypes (g : Graph) (self : String) (ids : List Id) : Except Err 
 
 /-- `ApiNamespace.linearize_aliases()` -/
 def linearizeAliases (g : Graph) (self : String) (ids : List Id) : Except Err (List Id) :=
-  linAll g self (aliasLink g) ids []
+  match foldAdd (aliasAdd g self g.chainFuel) ids {} with
+  | .error e => .error e
+  | .ok st => .ok st.out
 
 /-- side conditions of the linearization theorems (`Props/C02`), decidable: the list names nodes of
 the namespace; a link that stays in the namespace stays in the list -/
@@ -878,6 +914,17 @@ def linkClosedB (g : Graph) (self : String) (link : Node → Option Id) (ids : L
       match link nd with
       | none => true
       | some p =>
+        match g.node? p with
+        | none => true
+        | some np => np.ns != self || ids.contains p
+
+/-- an alias of the namespace mentioned by a listed alias is listed -/
+def aliasClosedB (g : Graph) (self : String) (ids : List Id) : Bool :=
+  ids.all fun a =>
+    match g.node? a with
+    | none => true
+    | some nd =>
+      (referencedAliases g nd.target).all fun p =>
         match g.node? p with
         | none => true
         | some np => np.ns != self || ids.contains p
@@ -905,7 +952,9 @@ def Namespace.normalize (g : Graph) (n : Namespace) : Namespace :=
   { n with
     routes := n.routes.mergeSort (leRoute g)
     dataTypes := n.dataTypes.mergeSort (leName g)
-    aliases := n.aliases.mergeSort (leName g) }
+    aliases := n.aliases.mergeSort (leName g)
+    annotations := n.annotations.mergeSort leStr
+    annotationTypes := n.annotationTypes.mergeSort leStr }
 
 /-- `Api.normalize()` -/
 def normalize (g : Graph) : Graph :=
